@@ -195,9 +195,15 @@ class ProcSetup:
         f = getattr(self.pz, self.kind)
         kw = dict(conditions=self.cond, number_of_steps=self.N, delta_hours=self.dt, precision=self.prec, calculation_type=self.model)
         if not self.ideal:
-            kw.update(diffusion_curve_set=self.curves, initial_permeances=self.P0, n_first=1, n_second=1,
-                      m_first=None if self.n_curves == 1 else 1, m_second=None if self.n_curves == 1 else 1)
+            # pairwise different orders, so that an order handed to the wrong component or the wrong slot is visible in the recorded search calls
+            kw.update(diffusion_curve_set=self.curves, initial_permeances=self.P0, n_first=1, n_second=2,
+                      m_first=None if self.n_curves == 1 else 1, m_second=None if self.n_curves == 1 else 3)
         return f(**kw)
+
+    def requested_orders(self, component_index):
+        """(n, m) the model has to pass to the best-fit search for this component (m = 0 with a single curve: the models' own rule)"""
+        n = (1, 2)[component_index]
+        return n, (0 if self.n_curves == 1 else (1, 3)[component_index])
 
     # -- oracles --------------------------------------------------------------------------------
     def w0(self):
